@@ -23,8 +23,25 @@ def _merge_box(cr):
                      "junction = sources in order, membership keyed by the PHYSICAL producer (contract evaluated on the real EntityPlacer._place_wire_merge)")
 
 
+
+def _locked_box(cr):
+    from bounded import pipeline
+    from bounded.contract_enum import run_contract_enum
+    from contracts import c02
+    pipeline.ensure_repo()
+    largs = c02.locked_colors_arg_sets()
+    cr.bounded_check(run_contract_enum, "locked-wire-colours-box", c02.locked_colors, largs,
+                     f"{len(largs)} plans: every subset of (gated cell, folded cell, bundle OP signal, each CMP signal, gate over a wire-merged bundle) next to an unrelated "
+                     "computation: exactly the colour locks that keep data / enable and bundle / scalar apart (contract evaluated on the real LayoutPlanner._determine_locked_wire_colors)")
+
+
+def _boxes(cr):
+    _merge_box(cr)
+    _locked_box(cr)
+
+
 def run(tier):
     progs = gen.c02_scope(tier)
     return run_e2e_property("C02", tier, EXPLANATION, "DESIGN §4 C02",
                             [("e2e-bundles", progs, "bundle operations over 3-member bundles incl. zero/negative members")],
-                            contract_modules=["contracts.c10", "contracts.c20b", "contracts.c07", "contracts.c07b", "contracts.c02", "contracts.c16b", "contracts.c14b"], extra=_merge_box)
+                            contract_modules=["contracts.c10", "contracts.c20b", "contracts.c07", "contracts.c07b", "contracts.c02", "contracts.c16b", "contracts.c14b"], extra=_boxes)
